@@ -25,6 +25,7 @@ def call(name, *args):
 def run(chk, tier):
     prog, info = common.program("all")
     common.note_extraction(chk, info, prog)
+    common.vacuity(chk, ['VN-bits', 'R-TABLE'])
     chk.explanation = ("The mapping is decided as a recurrence from the loop's value-numbered summary: None for sequence 1; count_0 = 1; per cut count' = count + "
                        "(6 if half-degree azimuth else 3) (half-degree = C11's bit-0 accessor); return that cut iff sequence <= count' (tested after the update); None "
                        "after the last cut — hence cut k owns (1 + sum_{j<k} w_j, 1 + sum_{j<=k} w_j]. The estimate's decision tree is compared with the "
